@@ -476,10 +476,83 @@ def rule_R(toks, au, opts=None):
         out.append(t)
         i += 1
     toks = out
+    toks = rule_select(toks, au)
     toks = rule_letchain(toks, au)
     toks = rule_whilelet(toks, au)
     toks = rule_drain(toks, au)
     toks = rule_for(toks, au, opts.get("for", "auto"))
+    return toks
+
+
+def rule_select(toks, au):
+    """tokio::select! { [biased;] P1 = F1 => B1 [,] P2 = F2 => B2 [,] }
+       ->  if vx_choice() { let P1 = F1; B1 } else { let P2 = F2; B2 }
+    vx_choice() is nondeterministic: over-approximates which branch completes first (sound for safety obligations)."""
+    i = 0
+    while i < len(toks):
+        k0 = None
+        if is_id(toks[i], "tokio") and texts(toks, i + 1, 4) == [":", ":", "select", "!"] and is_p(toks[i + 5], "{"):
+            k0 = i + 5
+        elif is_id(toks[i], "select") and is_p(toks[i + 1], "!") and is_p(toks[i + 2], "{") and not (i > 0 and is_p(toks[i - 1], ":")):
+            k0 = i + 2
+        if k0 is not None:
+            kend = match_close(toks, k0)
+            inner = toks[k0 + 1:kend]
+            q = 0
+            if is_id(inner[0], "biased") and is_p(inner[1], ";"):
+                q = 2
+            arms = []
+            while q < len(inner):
+                # PAT = EXPR => BODY
+                p0 = q
+                depth = 0
+                while not (is_p(inner[q], "=") and depth == 0 and not is_p(inner[q + 1], "=") and not is_p(inner[q + 1], ">")):
+                    if inner[q].kind == "p" and inner[q].text in OPEN:
+                        depth += 1
+                    elif inner[q].kind == "p" and inner[q].text in CLOSE:
+                        depth -= 1
+                    q += 1
+                pat = inner[p0:q]
+                q += 1
+                e0 = q
+                depth = 0
+                while not (is_p(inner[q], "=") and is_p(inner[q + 1], ">") and depth == 0):
+                    if inner[q].kind == "p" and inner[q].text in OPEN:
+                        depth += 1
+                    elif inner[q].kind == "p" and inner[q].text in CLOSE:
+                        depth -= 1
+                    q += 1
+                ex = inner[e0:q]
+                q += 2
+                if is_p(inner[q], "{"):
+                    b1 = match_close(inner, q)
+                    body = inner[q + 1:b1]
+                    q = b1 + 1
+                else:
+                    b0 = q
+                    depth = 0
+                    while q < len(inner) and not (is_p(inner[q], ",") and depth == 0):
+                        if inner[q].kind == "p" and inner[q].text in OPEN:
+                            depth += 1
+                        elif inner[q].kind == "p" and inner[q].text in CLOSE:
+                            depth -= 1
+                        q += 1
+                    body = inner[b0:q]
+                if q < len(inner) and is_p(inner[q], ","):
+                    q += 1
+                arms.append((pat, ex, body))
+            if len(arms) != 2:
+                raise Undecided(f"select! with {len(arms)} arms is outside the rewrite table")
+            au.note("R", "tokio::select! (2 arms) -> if vx_choice() { .. } else { .. }")
+            def arm(a):
+                pat, ex, body = a
+                return [Tok("p", "{", " "), Tok("id", "let", " ")] + [_w(x, " " if z == 0 else x.ws) for z, x in enumerate(pat)] + [Tok("p", "=", " ")] + \
+                       [_w(x, " " if z == 0 else x.ws) for z, x in enumerate(ex)] + [Tok("p", ";", "")] + [_w(x, " " if z == 0 else x.ws) for z, x in enumerate(body)] + [Tok("p", "}", " ")]
+            new = [Tok("id", "if", toks[i].ws), Tok("id", "vx_choice", " "), Tok("p", "(", ""), Tok("p", ")", "")] + arm(arms[0]) + [Tok("id", "else", " ")] + arm(arms[1])
+            toks[i:kend + 1] = new
+            i += len(new)
+            continue
+        i += 1
     return toks
 
 
@@ -1098,7 +1171,7 @@ ATOMICS = ("AtomicBool", "AtomicU8", "AtomicU32", "AtomicU64", "AtomicUsize")
 
 
 def strip_wrappers(e):
-    """Arc::new(X) / Mutex::new(X) / RwLock::new(X) -> X ;  [std::sync::atomic::]AtomicT::new(V) -> AtomicT { v: V }"""
+    """Arc::new(X) / Mutex::new(X) / RwLock::new(X) -> X ;  [std::sync::atomic::]AtomicT::new(V) -> AtomicT::vx_new(V) (shim constructor)"""
     changed = True
     while changed:
         changed = False
@@ -1117,7 +1190,7 @@ def strip_wrappers(e):
             k = 9
         if len(txt) > k + 4 and txt[k] in ATOMICS and txt[k + 1:k + 4] == [":", ":", "new"] and is_p(e[k + 4], "(") and match_close(e, k + 4) == len(e) - 1:
             inner = e[k + 5:-1]
-            e = [Tok("id", txt[k], ""), Tok("p", "{", " "), Tok("id", "v", " "), Tok("p", ":", "")] + [_w(x, " " if q == 0 else x.ws) for q, x in enumerate(inner)] + [Tok("p", "}", " ")]
+            e = [Tok("id", txt[k], ""), Tok("p", ":", ""), Tok("p", ":", ""), Tok("id", "vx_new", ""), Tok("p", "(", "")] + [_w(x, "" if q == 0 else x.ws) for q, x in enumerate(inner)] + [Tok("p", ")", "")]
     return e
 
 
